@@ -29,6 +29,17 @@ def _bump(rec, rng, nblocks, eid):
     return '|'.join([rid, ph, pa, str(idx), ';'.join(groups)])
 
 
+def _crossed(rec, rng, eid):
+    """a record BEHIND `rec` in block index but with a LONGER history (a peer that kept repeating a looping block)."""
+    rid, ph, pa, idx, h = rec.split('|')
+    idx = int(idx)
+    if idx <= 1:
+        return None
+    groups = h.split(';')
+    extra = '.'.join(f'{eid}{k}:{900 + k}:s:{rng.randint(0, 4)}' for k in range(len(h.split('.')) + 2))
+    return '|'.join([rid, ph, pa, str(rng.randint(1, idx - 1)), groups[0] + ';zc' + eid + '=' + extra])
+
+
 def _behind(rec):
     rid, ph, pa, idx, h = rec.split('|')
     g0 = h.split(';')[0]
@@ -52,9 +63,9 @@ def gen_history(rng, phens, cache, n_ops, data_hi=4, p_remote=0.4):
         else:
             lists = {'C': [], 'H': [], 'U': []}
             for _k in range(rng.choice((1, 1, 2, 3))):
-                kind = rng.choice(['ahead', 'ahead', 'equal', 'behind', 'unknown', 'foreign', 'finish', 'stale', 'new'])
+                kind = rng.choice(['ahead', 'ahead', 'equal', 'behind', 'crossed', 'crossed', 'unknown', 'foreign', 'finish', 'stale', 'new'])
                 base = rng.choice(table) if table else None
-                if kind in ('ahead', 'equal', 'behind', 'finish') and base is None:
+                if kind in ('ahead', 'equal', 'behind', 'crossed', 'finish') and base is None:
                     kind = 'new'
                 if kind == 'ahead':
                     key = tuple(base.split('|')[1:3])
@@ -64,6 +75,10 @@ def gen_history(rng, phens, cache, n_ops, data_hi=4, p_remote=0.4):
                     lists['U'].append(base)
                 elif kind == 'behind':
                     lists['U'].append(_behind(base))
+                elif kind == 'crossed':
+                    x = _crossed(base, rng, f'y{fid}')
+                    fid += 1
+                    lists['U'].append(x if x else _behind(base))
                 elif kind == 'finish':
                     lists[rng.choice('CH')].append(base)
                     if rng.random() < 0.3:       # merged message: also named as updated
